@@ -302,6 +302,25 @@ func rulesC18(e *Engine, r *Report) {
 	// ---------------------------------------------------------------- R18.7
 	r.Rule("R18.7", "the receive record describes the file that was delivered: finalize() writes the record of the very version whose bytes it moves (the cache's current record for the path), never the record of an older version that was parked before - shared with R05.12")
 	e.checkCurrentVersionFinalized(r, "R18.7")
+	// ---------------------------------------------------------------- R18.8
+	r.Rule("R18.8", "the walk ends where the window ends, in both directions: in rollingFile.each the two exit tests compare the day being visited with the window's end - After(stop) going forward, Before(stop) going backward, the receiver of both being the loop's own day; with the operands of the backward test swapped a reversed window is left after its first day")
+	if fn := needFn(e, r, "R18.8", "log.(*rollingFile).each"); fn != nil {
+		n := 0
+		for _, dir := range []string{"After", "Before"} {
+			for _, in := range e.findInstrs(fn, "call(time.(Time)."+dir+")(§)", false) {
+				if h, _ := innermostLoop(in); h == nil {
+					continue // the direction test before the loop
+				}
+				n++
+				args := in.(ssa.CallInstruction).Common().Args
+				recv, arg := e.Canon(args[0]), e.Canon(args[1])
+				ok := strings.Contains(recv, "AddDate") && !strings.Contains(arg, "AddDate")
+				r.Check(ok, "R18.8", "log.(*rollingFile).each: exit test "+dir+"(window end) on the day being visited", e.InstrPos(in),
+					"the exit test compares `"+shorten(recv)+"`."+dir+"(`"+shorten(arg)+"`): the day being visited must be the receiver and the window's end the argument", 1)
+			}
+		}
+		r.Min("R18.8", "exit tests of the day loop", n, 2)
+	}
 }
 
 // checkDayLoop: the day-file iterator behind Parse / WasReceived / WasSent
